@@ -310,8 +310,10 @@ fn bounds(b: Base, w: Wrap, thorough: bool) -> (usize, usize) {
         (Base::Memory, Wrap::Bare, false) => (3, 0),
         (Base::SqliteFile, _, true) => (2, 3),
         (Base::SqliteFile, _, false) => (1, 2),
+        (Base::Filesystem, Wrap::Brotli, true) | (Base::SqliteMem, Wrap::Brotli, true) => (3, 3),
         (_, _, true) => (3, 4),
-        (_, _, false) => (2, 3),
+        (Base::Memory, Wrap::Flate, false) | (Base::SqliteMem, Wrap::Bare, false) => (2, 3),
+        (_, _, false) => (2, 2),
     }
 }
 
@@ -347,6 +349,8 @@ pub fn run(thorough: bool, _seed: u64) -> Report {
     let mut n = 0u64;
     for (b, w, seqs) in rep_cases {
         let name = backend_name(b, w);
+        let t0 = std::time::Instant::now();
+        let nseq = seqs.len();
         for ops in seqs {
             n += 1;
             let loc = format!("{}/{}", root, n);
@@ -359,6 +363,9 @@ pub fn run(thorough: bool, _seed: u64) -> Report {
                 *stats.entry(format!("{}@{}", class, name)).or_insert(0) += 1;
                 classes.fail(&mut rep, &class, &format!("{}:{}", class, key), input, &what);
             }
+        }
+        if std::env::var_os("MELDA_VERIF_TIMING").is_some() {
+            eprintln!("[adapters] {}: {} sequences in {:?}", name, nseq, t0.elapsed());
         }
     }
     let _ = std::fs::remove_dir_all(&root);
